@@ -10,10 +10,10 @@ git diff > $out/patch.diff
 cp $pkg/zz_seeded_demo_test.go $out/zz_seeded_demo_test.go || exit 2
 [ -s $out/patch.diff ] || { echo "empty patch"; exit 2; }
 # 1. demo on original
-git stash -q
-r1=$(go test -vet=off -count=1 -run TestSeededDemo ./$pkg/ 2>&1 | tail -3); rc1=$?
+# (no git stash: the stash is shared between worktrees)
+git apply -R $out/patch.diff || { echo "cannot revert patch"; exit 2; }
 go test -vet=off -count=1 -run TestSeededDemo ./$pkg/ >/dev/null 2>&1; rc1=$?
-git stash pop -q
+git apply $out/patch.diff || { echo "cannot re-apply patch"; exit 2; }
 # 2. demo with change
 go test -vet=off -count=1 -run TestSeededDemo ./$pkg/ >/dev/null 2>&1; rc2=$?
 # 3. suite with change, demo skipped, compared with the baseline list
